@@ -830,7 +830,7 @@ namespace verif
             }
             else
                 h.sh.insert(l);
-            if (r.fam >= 1)
+            if (r.fam == 1) // only allocator_traits calls are counted by the leak checker (composable traits call the members)
                 h.ledger[s] += long(bytes);
             P::check_alloc(w, s, r, l, before);
             if (!bulk)
@@ -898,7 +898,7 @@ namespace verif
                 }
                 if (t.up_allocs)
                     t.fail("M-nogrow", "release-grew", "a deallocation requested memory from the upstream");
-                if (l.fam >= 1)
+                if (l.fam == 1)
                     h.ledger[s] -= long(l.bytes);
                 P::check_release(w, s, l, before);
                 if (!t.violations.empty())
@@ -935,7 +935,7 @@ namespace verif
             if (t.up_allocs)
                 t.fail("M-nogrow", "release-grew", "a deallocation requested memory from the upstream");
             t.outcome = "ok";
-            if (l.fam >= 1)
+            if (l.fam == 1)
                 h.ledger[s] -= long(l.bytes);
             P::check_release(w, s, l, before);
             P::after_release(w.x, l);
